@@ -676,6 +676,51 @@ def check_nice_clear(chk, m, info):
                % (missing[0], consulted[missing[0]][0], consulted[missing[0]][1]), fc.loc, fc.name)
 
 
+def _open_coded_format(p, pr, line, nargs):
+    """The text produced without the library's allocator: measured by snprintf(NULL, 0, fmt, args), a buffer of that length + 1
+    from malloc, filled by s(n)printf with the same format and arguments (size >= length + 1), and returned.  NULL may be returned
+    only after the measuring call reported an error or malloc returned NULL.  -> (ok, note)"""
+    names = [e.callee for e in pr]
+    if any(n not in ("snprintf", "sprintf", "malloc") for n in names):
+        return False, ""
+    fm = [e for e in pr if e.callee in ("snprintf", "sprintf")]
+    for e in fm:
+        if not check_format_args(e.args[2:] if e.callee == "snprintf" else e.args[1:], line, nargs, 0):
+            return False, ""
+    measure = [e for e in fm if e.callee == "snprintf" and e.args[0] == ("null",) and e.args[1][0] == "c" and e.args[1][2] == 0]
+    mal = [e for e in pr if e.callee == "malloc"]
+
+    def plus1(x, ln):
+        x = strip_casts(x)
+        return x[0] == "b" and x[1] == "add" and strip_casts(x[3]) == strip_casts(ln) and x[4][0] == "c" and x[4][2] == 1
+    ret_is_null = p.ret == ("null",)
+    if mal and p.ret == mal[0].res:
+        for c, taken, inst in p.conds:
+            cc = strip_casts(c)
+            if cc[0] == "icmp" and ("null",) in (cc[2], cc[3]) and mal[0].res in (cc[2], cc[3]) and (cc[1] == "eq") == bool(taken):
+                ret_is_null = True
+    if ret_is_null:
+        if [e for e in fm if mal and e.args[0] == mal[0].res]:
+            return False, ""        # formats through the NULL pointer
+        failed = False
+        for c, taken, inst in p.conds:
+            cc = strip_casts(c)
+            if cc[0] != "icmp":
+                continue
+            if measure and strip_casts(cc[2]) == strip_casts(measure[0].res) and cc[3][0] == "c" and cc[3][2] == 0 and \
+                    ((cc[1] == "slt" and taken) or (cc[1] == "sge" and not taken)):
+                failed = True
+            if mal and ("null",) in (cc[2], cc[3]) and mal[0].res in (cc[2], cc[3]) and (cc[1] == "eq") == bool(taken):
+                failed = True
+        return failed, " (NULL after a failed measurement / allocation)"
+    if len(measure) != 1 or len(mal) != 1 or p.ret != mal[0].res or not plus1(mal[0].args[0], measure[0].res):
+        return False, ""
+    fill = [e for e in fm if e.args[0] == mal[0].res]
+    if len(fill) != 1 or (fill[0].callee == "snprintf" and not plus1(fill[0].args[1], measure[0].res)):
+        return False, ""
+    return True, " (measured with snprintf(NULL, 0, ..), allocated length + 1, filled with the same format and arguments)"
+
+
 def check_readers(chk, m, info):
     head_off, line_off, n, esz = info
     nargs = (esz - 8) // 8
@@ -699,8 +744,13 @@ def check_readers(chk, m, info):
         if isnull:
             chk.ob("L6.get-line", pid, p.ret == ("null",) and not pr, "no line -> NULL, nothing formatted", p.ret_inst.loc, fn.name)
         else:
+            if paths.is_assert_fail_path(p):
+                continue
             ok = len(pr) == 1 and check_format_args(pr[0].args, line, nargs, 0) and p.ret == pr[0].res
-            chk.ob("L6.get-line", pid, ok, "formats line->fmt with line->arg[0..%d] and returns the text" % (nargs - 1),
+            how = ""
+            if not ok:
+                ok, how = _open_coded_format(p, pr, line, nargs)
+            chk.ob("L6.get-line", pid, ok, "formats line->fmt with line->arg[0..%d] and returns the text%s" % (nargs - 1, how),
                    p.ret_inst.loc, fn.name)
     fd = m.fn("mlog_dump")
     chk.note_fn(fd)
